@@ -106,7 +106,7 @@ CHECKS = {
     "C14": dict(
         category="model_checking",
         technique="exhaustive enumeration of import-statement histories (<= 2/3 statements over 20 forms) x placement x caller identity against a vendored logging package tree, sys.modules purged per run; import log, sys.modules delta and bound objects compared with CPython",
-        text="Every sequence of up to 2 (quick) / 3 (thorough) import statements over 20 forms (plain, dotted, aliased, multi-name, from-import of attributes and unimported submodules, relative level 1 and 2) at module, function and class level, as a top-level script and as a module inside the package, under all option combinations: which modules are executed, in which order, what ends up in sys.modules and what every bound name refers to must equal CPython's.",
+        text="Every sequence of up to 2 (quick) / 3 (thorough) import statements over 20 forms (plain, dotted, aliased, multi-name, from-import of attributes and unimported submodules, relative level 1 and 2) in 6 placements (module, function, class, function whose inner function and inner class body read the names as free variables, inner function with nonlocal, function with global), as a top-level script and as a module inside the package, under all option combinations: which modules are executed, in which order, what ends up in sys.modules and what every bound name refers to must equal CPython's.",
         note="Trusted: CPython import system; the vendored package tree is the whole import universe explored.",
         ref="DESIGN.md 3 C14",
     ),
